@@ -52,6 +52,17 @@ pub fn cases(thorough: bool, seed: u64) -> Vec<Params> {
             out.push(Params { n, t, ids: ids.clone(), subset: (0..t as usize - 1).collect(), variant: V_THRESHOLD, aux: 0, seed });
         }
     }
+    // large signer sets: everybody signs; seed-based flow, a re-keyed view, one cheater in the last slot
+    for (n, t) in crate::large_pairs(thorough) {
+        if n > 40 {
+            continue;
+        }
+        let all: Vec<usize> = (0..n as usize).collect();
+        out.push(Params { n, t, ids: IdSet::Default, subset: all.clone(), variant: V_FLOW, aux: 0, seed });
+        out.push(Params { n, t, ids: IdSet::Default, subset: all.clone(), variant: V_TAMPER, aux: 1001, seed });
+        out.push(Params { n, t, ids: IdSet::Default, subset: all.clone(), variant: V_TAMPER, aux: 2 + 3 * (n as u64 - 1) + 1, seed });
+        out.push(Params { n, t, ids: IdSet::Default, subset: all.clone(), variant: V_CHEAT, aux: 1 | ((n as u64 - 1) << 4), seed });
+    }
     out
 }
 
